@@ -6,6 +6,7 @@ pub mod c01;
 pub mod c02;
 pub mod c03;
 pub mod c04;
+pub mod c05;
 pub mod c06;
 pub mod c09;
 pub mod c12;
@@ -18,6 +19,7 @@ pub fn run(prop: &str, args: &Args) -> i32 {
         "C02" => c02::run(args),
         "C03" => c03::run(args),
         "C04" => c04::run(args),
+        "C05" => c05::run(args),
         "C06" => c06::run(args),
         "C09" => c09::run(args),
         "C12" => c12::run(args),
